@@ -771,7 +771,7 @@ def group_of(name):
 def assignments(names, tier):
     """Enumerate toggle assignments.  Full 2^k when k <= limit, otherwise group-wise."""
     k = len(names)
-    limit = 13 if tier == 'thorough' else 9
+    limit = 12 if tier == 'thorough' else 7
     if k <= limit:
         for bits in itertools.product((False, True), repeat=k):
             yield frozenset(n for n, b in zip(names, bits) if b)
@@ -779,6 +779,13 @@ def assignments(names, tier):
     groups = {}
     for n in names:
         groups.setdefault(group_of(n), []).append(n)
+    # split groups larger than the limit into consecutive sub-groups
+    for g in sorted(groups):
+        lst = groups[g]
+        if len(lst) > limit:
+            del groups[g]
+            for i in range(0, len(lst), limit):
+                groups['%s%d' % (g, i // limit)] = lst[i:i + limit]
     seen = set()
     gkeys = sorted(groups)
     if tier == 'thorough':
@@ -807,27 +814,26 @@ def assignments(names, tier):
                     yield a
 
 
-def ast_cases(tier):
+def ast_cases_of(kind, tier):
     """-> list of JSON-able cases {'mode':'ast','kind':..,'on':[..],'text':[slot,class]|None,'shape':..}"""
     cases = []
-    for kind, builder in KINDS.items():
-        names, slots = discover(builder)
-        for on in assignments(names, tier):
-            if any(k == kind and pred(on) for k, pred, _ in EXCLUDED):
-                continue
-            cases.append({'mode': 'ast', 'kind': kind, 'on': sorted(on), 'text': None, 'shape': None})
-        # text classes: every slot x every class, all attributes present / only that slot's toggle path
-        for slot, slottype in slots:
-            for cls in sorted(texts()[slottype]):
-                for bg in ('all', 'min'):
-                    on = set(names) if bg == 'all' else set(n for n in names if n.endswith('.' + slot) or n == slot or
-                                                            n in ('h.doc', 'string', 'default_value', 'param1', 'param1_doc'))
-                    if any(k == kind and pred(on) for k, pred, _ in EXCLUDED):
-                        on.discard('caller_allocates')
-                    cases.append({'mode': 'ast', 'kind': kind, 'on': sorted(on), 'text': [slot, cls], 'shape': None})
+    builder = KINDS[kind]
+    names, slots = discover(builder)
+    for on in assignments(names, tier):
+        if any(k == kind and pred(on) for k, pred, _ in EXCLUDED):
+            continue
+        cases.append({'mode': 'ast', 'kind': kind, 'on': sorted(on), 'text': None, 'shape': None})
+    # text classes: every slot x every class, all attributes present / only that slot's toggle path
+    for slot, slottype in slots:
+        for cls in sorted(texts()[slottype]):
+            for bg in ('all', 'min'):
+                on = set(names) if bg == 'all' else set(n for n in names if n.endswith('.' + slot) or n == slot or
+                                                        n in ('h.doc', 'string', 'default_value', 'param1', 'param1_doc'))
+                if any(k == kind and pred(on) for k, pred, _ in EXCLUDED):
+                    on.discard('caller_allocates')
+                cases.append({'mode': 'ast', 'kind': kind, 'on': sorted(on), 'text': [slot, cls], 'shape': None})
     # type shapes in every typed slot, with the slot's own attributes all-absent and all-present
-    for kind, builder in SHAPED.items():
-        names, _ = discover(builder)
+    if kind in SHAPED:
         for shape in TYPE_SHAPES:
             if shape in ('carray_len', 'carray_zero_len') and kind == 'property':
                 continue        # a property has no sibling to name as length
@@ -836,6 +842,13 @@ def ast_cases(tier):
             for on in (frozenset(), frozenset(n for n in names if n not in ('caller_allocates', 'no_transfer'))):
                 cases.append({'mode': 'ast', 'kind': kind, 'on': sorted(on), 'text': None, 'shape': shape})
     return cases
+
+
+def ast_cases(tier):
+    out = []
+    for kind in KINDS:
+        out += ast_cases_of(kind, tier)
+    return out
 
 
 def build_ast_case(case):
@@ -865,9 +878,12 @@ def check_ast_case(case):
     return None, xml
 
 
-def _work_ast(chunk):
+def _work_ast(task):
+    tier, kind, i, n = task
+    chunk = ast_cases_of(kind, tier)[i::n]
     part = Part()
     best = {}
+    part.add(ast_documents=len(chunk))
     for case in chunk:
         err, xml = check_ast_case(case)
         part.add(evaluations=3, states=1, transitions=len(case['on']) + 1, traces_validated_against_impl=1)
@@ -996,6 +1012,29 @@ def sink_case():
     return decls, comments, dump
 
 
+def extra_scan_cases():
+    """Small scanned namespaces for node kinds the C05 generator does not produce: a boxed GType
+    without a visible struct (glib:boxed) with constructor/method/static function, registered
+    enum/flags, an error domain, documented aliases/constants/members/fields."""
+    g = c05gen
+    cases = []
+    boxed_dump = '<?xml version="1.0"?><dump><boxed name="FooBx" get-type="foo_bx_get_type"/></dump>'
+    base = [g.fn('foo_bx_get_type', 'GType', [])]
+    members = [g.fn('foo_bx_new', 'FooBx*', []), g.fn('foo_bx_m', 'void', [('FooBx*', 'b')]),
+               g.fn('foo_bx_s', 'void', [('int', 'a')])]
+    for bits in range(8):
+        d = base + [m for i, m in enumerate(members) if bits >> i & 1]
+        cases.append({'part': 'X', 'decls': d, 'comments': [], 'dump': boxed_dump,
+                      'note': 'glib:boxed with constructor/method/static function subset %d' % bits})
+    for tag in ('Since: 1.2', 'Deprecated: 1.4: gone', 'Stability: Unstable', 'Since: 1.2: why'):
+        for what, decl in (('FooAl', g.td('FooAl', 'int')), ('foo_f', g.fn('foo_f', 'void', [])),
+                           ('FooCb', g.cb('FooCb', 'void', [])), ('FooRec', g.td('FooRec', 'struct _FooRec'))):
+            cases.append({'part': 'X', 'decls': [decl, g.fn('foo_other', 'void', [])],
+                          'comments': ['/**\n * %s:\n *\n * doc\n *\n * %s\n */' % (what, tag)], 'dump': None,
+                          'note': '%s documented with %s' % (what, tag)})
+    return cases
+
+
 def check_scanned(decls, comments, dump, includes):
     """-> (status, err, xml)"""
     fake.number(decls)
@@ -1062,8 +1101,9 @@ def run(ctx):
     for st, need in (('doc', 6), ('pdoc', 6), ('tdoc', 5), ('attr', 5), ('version', 3), ('stability', 3)):
         if len(t[st]) < need:
             raise HarnessBroken('comment parser delivered only %d values for slot type %s' % (len(t[st]), st))
-    acases = ast_cases(tier)
     kinds = sorted(KINDS)
+    nsplit = 24 if tier == 'thorough' else 4
+    tasks = [(tier, k, i, nsplit) for k in KINDS for i in range(nsplit)]
     ctx.set(rule='(i) one giscanner.ast node kind per document x every subset of its optional attributes x every text '
                  'class per text slot (values as delivered by the real comment parser) x every type shape per typed slot: '
                  'GIRWriter -> bytes; bytes must be a fixed point of GIRParser->GIRWriter twice and the model read back '
@@ -1072,10 +1112,10 @@ def run(ctx):
                  'namespace, comparing the scanner\'s own namespace with the one read back; (iii) every *.gir of the '
                  'repository (expected files byte-identical; hand-written files: one write reaches a fixed point that '
                  'carries the same model).  evaluations = reader/writer executions',
-            bounds={'node_kinds': len(kinds), 'ast_documents': len(acases), 'type_shapes': len(TYPE_SHAPES),
-                    'text_classes': sorted(TEXT_CLASSES), 'max_full_toggle_product': 13 if tier == 'thorough' else 9})
+            bounds={'node_kinds': len(kinds), 'type_shapes': len(TYPE_SHAPES),
+                    'text_classes': sorted(TEXT_CLASSES), 'max_full_toggle_product': 12 if tier == 'thorough' else 7})
     run_corpus(ctx)
-    for r in pmap(_work_ast, rotate(chunked(acases, 64), ctx.seed)):
+    for r in pmap(_work_ast, rotate(tasks, ctx.seed)):
         ctx.merge(r)
     # (ii)
     decls, comments, dump = sink_case()
@@ -1096,12 +1136,13 @@ def run(ctx):
     ctx.sample({'mode': 'scan', 'note': 'kitchen sink', 'element_kinds': sorted(tags)})
     if err:
         ctx.violation('scan:sink:%s' % _err_class(err), 'kitchen-sink namespace: %s' % err, {'mode': 'sink'})
-    scases = []
+    scases = extra_scan_cases()
     for name in 'ABCD':
         scases += c05gen.PARTS[name](tier)
-    if tier != 'thorough':
-        # the quick tier takes every 4th C05 description of parts B and C (they differ in order only)
-        scases = [c for i, c in enumerate(scases) if c['part'] in 'AD' or i % 4 == 0]
+    # parts B and C of the C05 generator differ mostly in declaration order: every 4th description of
+    # part C (and of part B in the quick tier) is taken, in enumeration order
+    sub = 'BC' if tier != 'thorough' else 'C'
+    scases = [c for i, c in enumerate(scases) if c['part'] not in sub or i % 4 == 0]
     ctx.cov['bounds']['scanned_namespaces'] = len(scases) + 1
     for r in pmap(_work_scanned, rotate(chunked(scases, 64), ctx.seed)):
         ctx.merge(r)
